@@ -131,6 +131,7 @@ type Eng struct {
 	mathTerms [][3]string
 	valueFieldTypes map[string]bool
 	wfFrontier string
+	atRootExit bool
 	siteHits map[*SiteSpec]int
 	modelIDs map[int]bool
 	regionElemType map[string]types.Type
@@ -213,6 +214,10 @@ func (e *Eng) regionWF(name, c, frTerm string) string {
 func (e *Eng) get(st *State, name, sortName string) string {
 	if t, ok := st.reg[name]; ok {
 		return t
+	}
+	if strings.HasPrefix(name, "@post.") {
+		// path on which the monitor lock was never released: the post state is the current one
+		return e.get(st, strings.TrimPrefix(name, "@post."), sortName)
 	}
 	return e.regInit(name, sortName)
 }
